@@ -200,7 +200,7 @@ func runC03(r *Run) {
 		sf := SFrame{F: wsref.Frame{Fin: true, Opcode: wsref.OpClose, Payload: wsref.ClosePayload(code, "mid-close")}}
 		fs = append(fs[:pos], append([]SFrame{sf}, fs[pos:]...)...)
 	}
-	stream, _ := EncodeScript(rc.Peer, fs)
+	stream, frameEnds := EncodeScript(rc.Peer, fs)
 	if rawMode {
 		switch t.Draw(3) {
 		case 0: // flip bytes
@@ -257,8 +257,25 @@ func runC03(r *Run) {
 		sig += ":" + ex.What
 	}
 
-	rc.Peer.Inject(stream)
-	rc.Raw.CloseWrite()
+	// the stream may arrive with a long silence at a frame boundary (longer than any
+	// per-frame time limit of the library: the reader just keeps waiting)
+	pauseAt, pauseFor := -1, time.Duration(0)
+	if !rawMode && len(frameEnds) > 1 && t.Pct(25) {
+		pauseAt = frameEnds[t.Draw(len(frameEnds)-1)]
+		pauseFor = []time.Duration{5500 * time.Millisecond, 20 * time.Second}[t.Draw(2)]
+	}
+	if pauseAt <= 0 || pauseAt >= len(stream) {
+		rc.Peer.Inject(stream)
+		rc.Raw.CloseWrite()
+	} else {
+		r.S.Count("probe.silence-at-frame-boundary")
+		rc.Peer.Inject(stream[:pauseAt])
+		r.S.Go("feeder", func() {
+			r.S.Sleep(pauseFor)
+			rc.Peer.Inject(stream[pauseAt:])
+			rc.Raw.CloseWrite()
+		})
+	}
 
 	var msgs []gotMsg
 	var partial []byte
